@@ -514,7 +514,7 @@ def load_order(p, outs):
         for fn, ft, ln in fl:
             if ft.startswith("RTMA.") and bound.get(ft) != "function":
                 problems.append(("js", "%s.%s calls %s(), which is %s" % (name, fn, ft, bound.get(ft, "never defined"))))
-    if re.search(r"Array\(.+\)\.fill\(RTMA\.", js):
+    if re.search(r"Array\(.+\)\.fill\(RTMA\.(SDF|MDF)\.", js):     # filling with a primitive (native type or alias of one) is harmless
         problems.append(("js", "struct array elements share one object (Array(n).fill(obj))"))
     # MATLAB: right-hand sides mention only fields already assigned
     assigned = set()
